@@ -63,6 +63,8 @@ type hsCfg struct {
 	ctxDL   bool // the deadline comes from the caller's context (HandshakeTimeout is zero), client only
 	// ctxAlso: HandshakeTimeout (1h) and a context deadline this far away are both configured (0: no)
 	ctxAlso time.Duration
+	// proxyURL: use this URL object for the proxy (the same object across several dials)
+	proxyURL *url.URL
 	// proxy credentials (decoded form), for the Proxy-Authorization oracle
 	proxyUser, proxyPass string
 }
@@ -111,6 +113,9 @@ func runHandshake(cfg hsCfg, failAt int, kind string, proxyReply string) (t *TCo
 		pu := &url.URL{Scheme: "http", Host: "proxy.test:8080"}
 		if cfg.proxyUser != "" {
 			pu.User = url.UserPassword(cfg.proxyUser, cfg.proxyPass)
+		}
+		if cfg.proxyURL != nil {
+			pu = cfg.proxyURL
 		}
 		d.Proxy = func(*http.Request) (*url.URL, error) { return pu, nil }
 		t.dynQ = append(t.dynQ, func([]byte) []byte { return []byte(proxyReply) })
@@ -301,10 +306,46 @@ func runHsFaultScenario(seed int64, idx int) *scenario {
 			}
 		}
 	}
+	// the credentials sent are those of the proxy URL at the time of the dial: the same URL object dialled
+	// again after its userinfo was changed, reduced to a user name, or removed
+	if cfg.proxy {
+		pu := &url.URL{Scheme: "http", Host: "proxy.test:8080", User: url.UserPassword("alice", "s3cret")}
+		steps := []struct {
+			set  func()
+			want string
+		}{
+			{func() {}, "Basic " + base64.StdEncoding.EncodeToString([]byte("alice:s3cret"))},
+			{func() { pu.User = url.UserPassword("alice", "rotated") }, "Basic " + base64.StdEncoding.EncodeToString([]byte("alice:rotated"))},
+			{func() { pu.User = url.User("alice") }, ""},
+			{func() { pu.User = nil }, ""},
+		}
+		for i, st := range steps {
+			st.set()
+			c2 := cfg
+			c2.proxyURL = pu
+			t, _, _, p := runHandshake(c2, -1, "", "HTTP/1.1 200 Connection established\r\n\r\n")
+			if p != "" {
+				sc.violate("dial %d through one proxy URL object panicked: %s", i, p)
+				continue
+			}
+			got := ""
+			for _, l := range strings.Split(strings.SplitN(string(t.wire), "\r\n\r\n", 2)[0], "\r\n") {
+				if j := strings.Index(l, ":"); j > 0 && asciiLower(l[:j]) == "proxy-authorization" {
+					got = owsTrim(l[j+1:])
+				}
+			}
+			if got != st.want {
+				sc.violate("dial %d through the same proxy URL object (userinfo now %q): Proxy-Authorization is %q, expected %q", i, pu.User.String(), got, st.want)
+			}
+		}
+		sc.tag("hs:proxy-cred-rotation")
+	}
 	// proxy refusals: any non-200 reply aborts with an error, connection closed, no panic (F6)
 	if cfg.proxy {
 		for _, rep := range []string{"HTTP/1.1 407 Proxy Authentication Required\r\n\r\n", "HTTP/1.1 407\r\n\r\n", "HTTP/1.1 502 Bad Gateway\r\nContent-Length: 3\r\n\r\nabc", "HTTP/1.1 301 \r\n\r\n", "garbage\r\n\r\n", "",
-			"HTTP/1.1 201 Created\r\n\r\n", "HTTP/1.1 204 No Content\r\n\r\n", "HTTP/1.1 299 x\r\n\r\n", "HTTP/1.1 202 Accepted\r\nContent-Length: 0\r\n\r\n", "HTTP/1.1 100 Continue\r\n\r\n"} {
+			"HTTP/1.1 201 Created\r\n\r\n", "HTTP/1.1 204 No Content\r\n\r\n", "HTTP/1.1 299 x\r\n\r\n", "HTTP/1.1 202 Accepted\r\nContent-Length: 0\r\n\r\n", "HTTP/1.1 100 Continue\r\n\r\n",
+			// interim replies followed by a 200: the first reply decides
+			"HTTP/1.1 100 Continue\r\n\r\nHTTP/1.1 200 Connection established\r\n\r\n", "HTTP/1.1 103 Early Hints\r\nLink: </x>\r\n\r\nHTTP/1.1 200 OK\r\n\r\n", "HTTP/1.1 101 Switching Protocols\r\n\r\nHTTP/1.1 200 OK\r\n\r\n"} {
 			t, c, err, p := runHandshake(cfg, -1, "", rep)
 			if p != "" {
 				sc.knownHit("F6-proxy-status-without-reason", fmt.Sprintf("CONNECT reply %q: panic %s", rep, p))
@@ -334,6 +375,9 @@ func runGlueScenario(seed int64) *scenario {
 	r := rand.New(rand.NewSource(seed))
 	sc := &scenario{kind: "glue", seed: seed}
 	g := &rGen{rng: r, sc: sc, log: &evlog{}, opt: rOpts{mode: "conform", smallOnly: r.Intn(4) != 0}}
+	// a third of the server-side scenarios negotiate permessage-deflate, so that the bytes glued to the
+	// handshake may begin with a compressed (RSV1) frame, fragmented or not
+	zsrv := seed%3 == 0
 	ks := &keySource{keys: []byte{5, 6, 7, 8}}
 	restore := websocket.VerifSetMaskRand(ks)
 	defer restore()
@@ -341,6 +385,10 @@ func runGlueScenario(seed int64) *scenario {
 	server := r.Intn(3) > 0
 	g.srv = server
 	g.rbuf = 0
+	if server && zsrv {
+		g.nego = true
+		g.opt.compress = true
+	}
 	g.build()
 	stream := g.stream
 	if len(stream) > 3000 && server || len(stream) > 40000 {
@@ -362,9 +410,12 @@ func runGlueScenario(seed int64) *scenario {
 		}
 		w := &fakeRW{hdr: http.Header{}, conn: t}
 		w.brw = bufio.NewReadWriter(br, bufio.NewWriterSize(t, 4096))
-		u := &websocket.Upgrader{ReadBufferSize: rbs}
+		u := &websocket.Upgrader{ReadBufferSize: rbs, EnableCompression: g.nego}
 		req := &http.Request{Method: "GET", Host: "example.com", URL: &url.URL{Path: "/"}, Header: http.Header{
 			"Connection": {"Upgrade"}, "Upgrade": {"websocket"}, "Sec-Websocket-Version": {"13"}, "Sec-Websocket-Key": {"dGhlIHNhbXBsZSBub25jZQ=="}}}
+		if g.nego {
+			req.Header["Sec-Websocket-Extensions"] = []string{"permessage-deflate; client_no_context_takeover; server_no_context_takeover"}
+		}
 		var err error
 		c, err = u.Upgrade(w, req, nil)
 		if err != nil {
@@ -379,14 +430,14 @@ func runGlueScenario(seed int64) *scenario {
 			parts = append(parts, hx(ch))
 		}
 		if reuse {
-			sc.emit(fmt.Sprintf("conn c0 srv=1 wbuf=0 pool=0 nego=0 brsize=%d", brSize), "ok")
+			sc.emit(fmt.Sprintf("conn c0 srv=1 wbuf=0 pool=0 nego=%d brsize=%d", b2i(g.nego), brSize), "ok")
 			cs := strings.Join(parts, ",")
 			if cs == "" {
 				cs = "-"
 			}
 			sc.emit(fmt.Sprintf("feed c0 %s term=eof tog=0 pre=%s", cs, hx(pre)), "ok")
 		} else {
-			sc.emit(fmt.Sprintf("conn c0 srv=1 wbuf=0 pool=0 nego=0 rbuf=%d", rbs), "ok")
+			sc.emit(fmt.Sprintf("conn c0 srv=1 wbuf=0 pool=0 nego=%d rbuf=%d", b2i(g.nego), rbs), "ok")
 			if k > 0 {
 				parts = append([]string{hx(pre)}, parts...)
 			}
